@@ -6,6 +6,7 @@ import (
 	"fmt"
 	"io"
 	"net/http"
+	"strings"
 	"time"
 
 	"github.com/hashicorp/raft"
@@ -29,10 +30,16 @@ func (api *HTTP) handleDeleteSession(w http.ResponseWriter, r *http.Request, ses
 		return
 	}
 
+	// The quit message ends up in a QUIT line sent to other clients, so cut
+	// it at the first CR, LF or NUL, like handlePostMessage does.
+	quitmsg := req.Quitmessage
+	if idx := strings.IndexAny(quitmsg, "\r\n\x00"); idx > -1 {
+		quitmsg = quitmsg[:idx]
+	}
 	msg := &robust.Message{
 		Session: session,
 		Type:    robust.DeleteSession,
-		Data:    req.Quitmessage,
+		Data:    quitmsg,
 	}
 	if err := api.applyMessageWait(msg, 10*time.Second); err != nil {
 		if err == raft.ErrNotLeader {
